@@ -93,7 +93,7 @@ def ditWalk (T : TsDoc) : Nat → TypeDef → List Name → List Directive × Li
     if t.kind == .input then
       if seen.contains t.name then ([], seen)
       else
-        let r := ditFields T (ditWalk T fuel) t.inputs seen
+        let r := ditFields T (ditWalk T fuel) t.inputs (t.name :: seen)
         (t.dirs ++ t.inputs.flatMap (·.dirs) ++ r.1, r.2)
     else (directivesInTypeOld t, seen)
 
